@@ -153,6 +153,14 @@ def verify_uri(
 
     uri_type_property = f"{uri_type}s" if uri_type == "redirect_uri" else uri_type
     client_redirect_uris: list[Union[str, tuple[str, dict]]] = client_info.get(uri_type_property)
+    if (
+        client_redirect_uris
+        and len(client_redirect_uris) == 2
+        and isinstance(client_redirect_uris[0], str)
+        and (isinstance(client_redirect_uris[1], dict) or not client_redirect_uris[1])
+    ):
+        # one URI as a [base, query] pair: how registration stores a post_logout_redirect_uri
+        client_redirect_uris = [tuple(client_redirect_uris)]
     if not client_redirect_uris:
         # an OIDC client must have registered with redirect URIs
         if endpoint_type == "oidc":
